@@ -27,7 +27,7 @@ impl Property for C12 {
         "C12"
     }
     fn rule(&self) -> &'static str {
-        "anchor: external check value 0x0376E6E7 of '123456789'; bytepos: for a seeded random message (label length 0/3/6) every byte position of total length, protocol type, label and the first 64 PDU bytes takes all 256 values (each value selects a distinct table index at that position) and DefaultCrc is compared with a bit-serial reference; lengths: PDU lengths from the size lattice up to 65535; random: seeded messages; sender/receiver: fragment trains built by the real encapsulator (one in three through encap_ext with an extension chain, incl. re-use substituted first fragments) with a recording CrcCalculator on both sides, trailer compared with the reference, receiver accepts iff trailer == reference. Non-trivial = the reference and the crate both produced a value and were compared; fingerprint = hash of the full CRC input (or of the train)."
+        "anchor: external check value 0x0376E6E7 of '123456789'; bytepos: for a seeded random message (label length 0/3/6) every byte position of total length, protocol type, label and the first 64 PDU bytes takes all 256 values (each value selects a distinct table index at that position) and DefaultCrc is compared with a bit-serial reference; lengths: PDU lengths from the size lattice up to 65535; random: seeded messages; sender/receiver: fragment trains built by the real encapsulator (one in three through encap_ext with an extension chain, incl. re-use substituted first fragments) with a recording CrcCalculator on both sides, trailer compared with the reference, receiver accepts iff trailer == reference (also when its label memory is reset between two fragments); rx-handmade: hand-made trains sealed conformantly or with the wrong label rule (explicit label sealed as if re-used, re-use fragment sealed with the full label). Non-trivial = the reference and the crate both produced a value and were compared; fingerprint = hash of the full CRC input (or of the train)."
     }
     fn gens(&self, cx: &Cx) -> Vec<Gen> {
         vec![
@@ -37,6 +37,7 @@ impl Property for C12 {
             Gen { name: "random", count: cx.n(40_000, 1_000_000), exhaustive: false },
             Gen { name: "sender", count: cx.n(3_000, 60_000), exhaustive: false },
             Gen { name: "receiver", count: cx.n(3_000, 60_000), exhaustive: false },
+            Gen { name: "rx-handmade", count: cx.n(6_000, 200_000), exhaustive: false },
         ]
     }
     fn run_key(&self, cx: &Cx, gen: &str, key: u64, rep: &mut Report) {
@@ -141,6 +142,90 @@ impl Property for C12 {
                     Ok(got) => rep.violation("C12", format!("value-mismatch:random:label{}", ll), || format!("DefaultCrc != reference: total={:#06x} type={:#06x} label={} pdu={} got {:#010x} want {:#010x}", total, pt, hex(&label), hex_short(&pdu, 64), got, want), replay),
                     Err(p) => rep.violation("C12", "crc-panic".into(), || format!("DefaultCrc panicked: {}", p), replay),
                 }
+            }
+            "rx-handmade" => {
+                // hand-made trains (independent serialiser) sealed conformantly or with a wrong label rule;
+                // the receiver must accept exactly those whose trailer equals the reference CRC over
+                // total length | protocol type | label bytes ON THE WIRE (none for re-use / broadcast) | PDU
+                use crate::hostile::{mk_complete, mk_end, mk_first, mk_inter};
+                let lt = rng.below(4) as u8;
+                let lab6 = { let mut b = rng.bytes(6); b[0] |= 1; b };
+                let full: Vec<u8> = if lt == 1 || (lt == 3 && rng.chance(1, 2)) { lab6[..3].to_vec() } else { lab6.clone() };
+                let wire_label: Vec<u8> = if lt < 2 { if lt == 0 { lab6.clone() } else { lab6[..3].to_vec() } } else { vec![] };
+                let plen = if rng.chance(1, 6) { 0 } else { 1 + rng.below(120) };
+                let pdu = rng.bytes(plen);
+                let ptype = gen_user_ptype(&mut rng);
+                let id = rng.byte();
+                // 0 conformant, 1 explicit label sealed as if re-used, 2 re-use fragment sealed with the full label,
+                // 3 conformant with the receiver's label memory reset between the fragments
+                let variant = match (lt, rng.below(4)) {
+                    (0, 1) | (1, 1) => 1,
+                    (3, 2) => 2,
+                    (_, 3) => 3,
+                    _ => 0,
+                };
+                let (total, crc_label): (u16, Vec<u8>) = match variant {
+                    1 => ((2 + plen) as u16, vec![]),
+                    2 => ((2 + full.len() + plen) as u16, full.clone()),
+                    _ => ((2 + wire_label.len() + plen) as u16, wire_label.clone()),
+                };
+                let crc = fr.gse(total, ptype, &crc_label, &pdu);
+                let c1 = rng.below(plen + 1);
+                let c2 = c1 + rng.below(plen - c1 + 1);
+                let mut pkts = vec![mk_first(lt, &wire_label, id, total, ptype, &pdu[..c1])];
+                if c2 > c1 {
+                    pkts.push(mk_inter(id, &pdu[c1..c2]));
+                }
+                pkts.push(mk_end(id, &pdu[c2..], crc));
+                let rxcrc = RecCrc::new();
+                let mut dec = mon_dec(2, plen, &[plen + 1, plen + 2], MandTable::none(), rxcrc.clone());
+                if lt == 3 {
+                    // the label the re-use refers to
+                    let pl = mk_complete(if full.len() == 3 { 1 } else { 0 }, &full, 0x0800, b"");
+                    match dec_guard(&mut dec, &pl) {
+                        Ok(Ok((DecapStatus::CompletedPkt(b, _), _))) => {
+                            give_back(&mut dec, b);
+                        }
+                        _ => {
+                            rep.count("rx-handmade.prime-rejected");
+                            return;
+                        }
+                    }
+                }
+                rxcrc.take();
+                let n = pkts.len();
+                let mut last = None;
+                for (i, p) in pkts.iter().enumerate() {
+                    rep.eval();
+                    let r = dec_guard(&mut dec, p);
+                    if variant == 3 && i + 1 < n {
+                        dec.reset_last_label();
+                    }
+                    if i + 1 == n {
+                        last = Some(r);
+                    } else if !matches!(r, Ok(Ok((DecapStatus::FragmentedPkt(_), _)))) {
+                        last = Some(r);
+                        break;
+                    }
+                }
+                let last = last.unwrap();
+                // reference per the property: label bytes on the wire
+                let want = fr.gse(total, ptype, &wire_label, &pdu);
+                let conformant = want == crc && total as usize == 2 + wire_label.len() + plen;
+                let delivered = matches!(&last, Ok(Ok((DecapStatus::CompletedPkt(b, m), _))) if m.pdu_len() == plen && b[..plen] == pdu[..]);
+                let cls = format!("lt{}:v{}", lt, variant);
+                for c in rxcrc.take() {
+                    if c.label != wire_label || c.ptype != ptype || c.total_len != total || c.pdu != pdu {
+                        rep.violation("C12", format!("receiver-args:handmade:{}", cls), || format!("decapsulator called the CRC calculator with (pdu {}B, type {:#06x}, total {:#06x}, label {}); the bytes on the wire are (pdu {}B, {:#06x}, {:#06x}, label {})", c.pdu.len(), c.ptype, c.total_len, hex(&c.label), plen, ptype, total, hex(&wire_label)), replay);
+                    }
+                }
+                if conformant && !delivered {
+                    rep.violation("C12", format!("receiver-rejects-good-crc:handmade:{}", cls), || format!("conformant hand-made train (label type {}, label on the wire {}, pdu {}B, {} packets, variant {}) not delivered: {}", lt, hex(&wire_label), plen, n, variant, dec_res_str(&last)), replay);
+                } else if !conformant && matches!(&last, Ok(Ok((DecapStatus::CompletedPkt(_, _), _)))) {
+                    rep.violation("C12", format!("receiver-accepts-bad-crc:handmade:{}", cls), || format!("train sealed with the wrong label rule (variant {}: label type {}, label on the wire {}, CRC computed over label {}, total length {}) was delivered", variant, lt, hex(&wire_label), hex(&crc_label), total), replay);
+                }
+                rep.count(&format!("rx-handmade.v{}.{}", variant, if delivered { "delivered" } else { "rejected" }));
+                rep.nontrivial(mix(mix(0x4A4D, key), variant as u64));
             }
             "sender" | "receiver" => {
                 // a fragmented transfer built by the real encapsulator
@@ -309,8 +394,13 @@ impl Property for C12 {
                         }
                     }
                     let mut last_res = None;
+                    let reset_between = rng.chance(1, 3);
                     for (i, p) in pkts.iter().enumerate() {
                         let r = dec_guard(&mut dec, p);
+                        if reset_between && i + 1 < n {
+                            // a new frame starts between two fragments of the train
+                            dec.reset_last_label();
+                        }
                         if i + 1 == n {
                             last_res = Some(r);
                         } else if !matches!(r, Ok(Ok((DecapStatus::FragmentedPkt(_), _)))) {
@@ -377,7 +467,7 @@ impl Property for C12 {
         }
     }
     fn floors(&self, _cx: &Cx, rep: &mut Report) {
-        for k in ["sender.trains.lt0", "sender.trains.lt1", "sender.trains.lt2", "sender.trains.lt3", "sender.trains.ext", "receiver.trains.ext", "receiver.accepted", "receiver.rejected", "receiver.variant4"] {
+        for k in ["sender.trains.lt0", "sender.trains.lt1", "sender.trains.lt2", "sender.trains.lt3", "sender.trains.ext", "receiver.trains.ext", "receiver.accepted", "receiver.rejected", "receiver.variant4", "rx-handmade.v0.delivered", "rx-handmade.v1.rejected", "rx-handmade.v2.rejected", "rx-handmade.v3.delivered"] {
             if rep.get(k) == 0 {
                 rep.floors_missing.push(format!("C12 floor: counter {} is 0", k));
             }
